@@ -47,7 +47,7 @@ class FnResult:
     self.covers = 0
 
 
-def verify_function(world, reg, c, prop, timeout_ms=20000, mutate=None):
+def verify_function(world, reg, c, prop, timeout_ms=20000, mutate=None, recheck=False):
   """Checks the real source of c.target against contract c. Returns FnResult."""
   res = FnResult(c.key)
   t0 = time.time()
@@ -112,6 +112,16 @@ def verify_function(world, reg, c, prop, timeout_ms=20000, mutate=None):
             itp.oblige(f'{prop}/{c.key}/at-release[{expr}]#{k_}', itp.spec(cl, _env, _old), 'publication',
                        {'text': f'whenever {expr} is released: {cl}'})
       it.release_hooks.append(on_release)
+    if c.at_wait:
+      conds = {it.spec_val(expr, env): (expr, clauses) for expr, clauses in c.at_wait.items()}
+
+      def on_wait_check(itp, lk, _conds=conds, _old=old):
+        if lk in _conds:
+          expr, clauses = _conds[lk]
+          for k_, cl in enumerate(clauses):
+            itp.oblige(f'{prop}/{c.key}/at-wait[{expr}]#{k_}', itp.spec(cl, getattr(itp, 'top_env', env), _old), 'monitor-discipline',
+                       {'text': f'whenever {expr} is waited on: {cl}'})
+      it.wait_hooks = [on_wait_check]
     outcome, val = None, None
     try:
       args = [env[a.arg] for a in node.args.posonlyargs + node.args.args]
@@ -182,6 +192,9 @@ def verify_function(world, reg, c, prop, timeout_ms=20000, mutate=None):
           sorted({str(n) for p in paths for n in p.notes if str(n).startswith('dead-after')}))[:600]
     for o in obls:
       discharge(o, timeout_ms)
+      if recheck and o.result == 'unsat' and o.backend != 'cvc5':
+        from .path import recheck_cvc5
+        o.info['cvc5'] = recheck_cvc5(o, 10000)        # independent re-proof (thorough tier)
       if o.result == 'sat' and o.model is not None:
         o.info['model'] = model_dict(o.model)
         wt = {}
@@ -334,7 +347,7 @@ def preload(world, reg):
       pass
 
 
-def prove_lemma(world, reg, lemma, prop, timeout_ms=20000):
+def prove_lemma(world, reg, lemma, prop, timeout_ms=20000, recheck=False):
   res = FnResult(f'lemma::{lemma.name}')
   t0 = time.time()
   preload(world, reg)
@@ -367,6 +380,9 @@ def prove_lemma(world, reg, lemma, prop, timeout_ms=20000):
     # vacuity of the lemma's hypotheses
     for o in obls:
       discharge(o, timeout_ms)
+      if recheck and o.result == 'unsat' and o.backend != 'cvc5':
+        from .path import recheck_cvc5
+        o.info['cvc5'] = recheck_cvc5(o, 10000)
       if o.result == 'sat' and o.model is not None:
         o.info['model'] = model_dict(o.model)
       o.model = None
